@@ -177,6 +177,7 @@ def build_cond(c, V):
         return not_(inner) if c[1] == "not_" else ~inner
     if k == "forall":
         univ = build_term(c[3], V) if len(c) > 3 else V[c[1]]
+        LAST_FORALL[:] = [univ, V[c[1]]]
         if len(c) > 3 and c[3][0] == "flat":
             # for_all(flatten(s.kids), c): inside c the universal variable's index denotes the flattened ELEMENT
             V2 = Vars(V)
@@ -243,6 +244,9 @@ def declare_vars(case, objs, containers=None):
         V = Vars(V)
         V.memo = {}
     return V, conts
+
+
+LAST_FORALL = []      # [universal expression object, universal variable] of the for_all built last
 
 
 def later_uses(V):
@@ -347,6 +351,11 @@ def build_query(case, objs, containers=None, negate: int = 0, quant: Optional[st
     main = build_over(V, case, negate, quant, negate_desc, neg_form, conts)
     if case.get("later_uses"):
         main.later = later_uses(V)       # kept alive with the query
+    if case.get("universal_mentioned_later") and LAST_FORALL:
+        # the universal expression OBJECT of the for_all (u.a) is mentioned again, in condition position, in a query that is
+        # built after this one and never evaluated
+        with symbolic_mode():
+            main.later = list(main.later) + [an(entity(LAST_FORALL[1], LAST_FORALL[0]))]
     return main
 
 
